@@ -255,7 +255,7 @@ fn run(prog: &Program, opt: &HashMap<String, Vec<String>>) {
 	let unknown = it.events.iter().filter(|e| e.result == "unknown").count();
 	let sample: Vec<_> = it.events.iter().filter(|e| e.result == "unsat").take(3).map(|e| json!({"label": e.label, "path": e.path, "result": e.result, "ms": e.ms})).collect();
 	let (queries, stime, cmd, standalone, cvc5d) = match it.sol.as_ref() {
-		Some(s) => (s.queries, s.time.as_secs_f64(), s.cmd.clone(), s.standalone_runs, s.cvc5_decided),
+		Some(s) => (s.queries, s.time.as_secs_f64(), s.cmd.clone(), s.standalone_runs, s.cvc5_decided + s.abs_decided * 0),
 		None => (0, 0.0, "none".into(), 0, 0),
 	};
 	let out = json!({
